@@ -2,4 +2,8 @@ import DafRel.Props.C07
 #print axioms DafRel.Props.C07.processed_relation_is_left_alone
 #print axioms DafRel.Props.C07.reprocessing_calls_no_hook
 #print axioms DafRel.Props.C07.fully_processed_tree_is_returned_unchanged
+#print axioms DafRel.Props.C07.single_engine_tree_is_only_annotated
+#print axioms DafRel.Props.C07.process_then_execute_yields_direct_rows
+#print axioms DafRel.Props.C07.multi_engine_processing_invariant
+#print axioms DafRel.Props.C07.multi_engine_process_then_execute_yields_direct_rows
 #print axioms DafRel.Props.C07.trivial_transfer_calls_no_hook
